@@ -526,19 +526,28 @@ theorem sha1Readout_spec (s : Sha1State) (m : Bytes) (hi : Sha1Inv s m)
 /-! ## laws of a streaming digest object, sessions, HMAC -/
 
 /-- `H` implements the hash function `hash`: some relation `rep s m` ("`s` has absorbed `m` since it
-was last fresh / read out") is established by construction, extended by `append` (for chunks shorter
-than `maxChunk`) and turned into `hash m` plus a fresh state by `readout`. -/
-structure HashLaws {σ : Type} (H : HashObj σ) (hash : Bytes → Bytes) (maxChunk : Nat) where
+was last fresh / read out") is established by construction, extended by `append` (for chunks whose
+length satisfies `ok`) and turned into `hash m` plus a fresh state by `readout`. -/
+structure HashLaws {σ : Type} (H : HashObj σ) (hash : Bytes → Bytes) (ok : Nat → Prop) where
   rep : σ → Bytes → Prop
   fresh : rep H.fresh []
-  append : ∀ s m d, rep s m → d.length < maxChunk → rep (H.append s d) (m ++ d)
+  append : ∀ s m d, rep s m → ok d.length → rep (H.append s d) (m ++ d)
   readout : ∀ s m, rep s m → (H.readout s).1 = hash m ∧ rep (H.readout s).2 []
   digest_len : ∀ m, (hash m).length = H.digestSize
   digest_le_block : H.digestSize ≤ H.blockSize
-  block_lt : H.blockSize < maxChunk
+  block_ok : ok H.blockSize
+  ok_mono : ∀ a b, a ≤ b → ok b → ok a
 
-theorem HashLaws.foldl {σ : Type} {H : HashObj σ} {hash : Bytes → Bytes} {mc : Nat} (L : HashLaws H hash mc) :
-    ∀ (chunks : List Bytes) (s : σ) (m : Bytes), L.rep s m → (∀ c ∈ chunks, c.length < mc) →
+theorem absorb_preserves {σ : Type} (P : σ → Prop) (f : σ → Bytes → σ) (hf : ∀ s b, P s → P (f s b))
+    (st : σ) (l : Bytes) (h : P st) : P (absorb f st l) := by
+  unfold absorb
+  generalize chunks 64 l = cs
+  induction cs generalizing st with
+  | nil => exact h
+  | cons c cs ih => exact ih _ (hf _ _ h)
+
+theorem HashLaws.foldl {σ : Type} {H : HashObj σ} {hash : Bytes → Bytes} {mc : Nat → Prop} (L : HashLaws H hash mc) :
+    ∀ (chunks : List Bytes) (s : σ) (m : Bytes), L.rep s m → (∀ c ∈ chunks, mc c.length) →
       L.rep (chunks.foldl H.append s) (m ++ chunks.flatten)
   | [], s, m, hi, _ => by simpa using hi
   | c :: cs, s, m, hi, hc => by
@@ -546,8 +555,8 @@ theorem HashLaws.foldl {σ : Type} {H : HashObj σ} {hash : Bytes → Bytes} {mc
     have h2 := L.foldl cs _ _ h1 (fun x hx => hc x (by simp [hx]))
     simpa [List.append_assoc] using h2
 
-theorem HashLaws.session {σ : Type} {H : HashObj σ} {hash : Bytes → Bytes} {mc : Nat} (L : HashLaws H hash mc) :
-    ∀ (msgs : List (List Bytes)) (s : σ), L.rep s [] → (∀ cs ∈ msgs, ∀ c ∈ cs, c.length < mc) →
+theorem HashLaws.session {σ : Type} {H : HashObj σ} {hash : Bytes → Bytes} {mc : Nat → Prop} (L : HashLaws H hash mc) :
+    ∀ (msgs : List (List Bytes)) (s : σ), L.rep s [] → (∀ cs ∈ msgs, ∀ c ∈ cs, mc c.length) →
       H.session s msgs = msgs.map fun cs => hash cs.flatten
   | [], _, _, _ => rfl
   | cs :: rest, s, hi, hc => by
@@ -577,8 +586,8 @@ theorem hmac_eq_hmacK (hash : Bytes → Bytes) (B : Nat) (key text : Bytes) :
     Spec.hmac hash B key text =
       hash ((hmacK hash B key).map (· ^^^ 0x5c) ++ hash ((hmacK hash B key).map (· ^^^ 0x36) ++ text)) := rfl
 
-theorem hmacInit_spec {σ : Type} {H : HashObj σ} {hash : Bytes → Bytes} {mc : Nat} (L : HashLaws H hash mc)
-    (st : HmacState σ) (h1 : L.rep st.md []) (h2 : L.rep st.mdOpad []) (hk : st.key.length < mc) :
+theorem hmacInit_spec {σ : Type} {H : HashObj σ} {hash : Bytes → Bytes} {mc : Nat → Prop} (L : HashLaws H hash mc)
+    (st : HmacState σ) (h1 : L.rep st.md []) (h2 : L.rep st.mdOpad []) (hk : mc st.key.length) :
     L.rep (hmacInit H st).md ((hmacK hash H.blockSize st.key).map (· ^^^ 0x36)) ∧
     L.rep (hmacInit H st).mdOpad ((hmacK hash H.blockSize st.key).map (· ^^^ 0x5c)) ∧
     (hmacInit H st).key = st.key := by
@@ -595,10 +604,10 @@ theorem hmacInit_spec {σ : Type} {H : HashObj σ} {hash : Bytes → Bytes} {mc 
       (hmacK hash H.blockSize st.key).map (· ^^^ 0x5c) := by
     simp only [xorPad, hop]
     exact List.take_of_length_le (by rw [List.length_map, hlenK]; exact Nat.le_refl _)
-  have hmapI : ((hmacK hash H.blockSize st.key).map (· ^^^ (0x36 : UInt8))).length < mc := by
-    rw [List.length_map, hlenK]; exact L.block_lt
-  have hmapO : ((hmacK hash H.blockSize st.key).map (· ^^^ (0x5c : UInt8))).length < mc := by
-    rw [List.length_map, hlenK]; exact L.block_lt
+  have hmapI : mc ((hmacK hash H.blockSize st.key).map (· ^^^ (0x36 : UInt8))).length := by
+    rw [List.length_map, hlenK]; exact L.block_ok
+  have hmapO : mc ((hmacK hash H.blockSize st.key).map (· ^^^ (0x5c : UInt8))).length := by
+    rw [List.length_map, hlenK]; exact L.block_ok
   unfold hmacInit
   dsimp only
   rw [hcond]
@@ -631,8 +640,8 @@ theorem hmacInit_spec {σ : Type} {H : HashObj σ} {hash : Bytes → Bytes} {mc 
     exact ⟨a1, a2, trivial⟩
 
 /-- the `hmac` object over a lawful digest is itself a lawful streaming object for RFC 2104's function -/
-def hmacLaws {σ : Type} {H : HashObj σ} {hash : Bytes → Bytes} {mc : Nat} (L : HashLaws H hash mc)
-    (key : Bytes) (hk : key.length < mc) :
+def hmacLaws {σ : Type} {H : HashObj σ} {hash : Bytes → Bytes} {mc : Nat → Prop} (L : HashLaws H hash mc)
+    (key : Bytes) (hk : mc key.length) :
     HashLaws (hmacObj H key) (Spec.hmac hash H.blockSize key) mc where
   rep st m := L.rep st.md ((hmacK hash H.blockSize key).map (· ^^^ 0x36) ++ m) ∧
     L.rep st.mdOpad ((hmacK hash H.blockSize key).map (· ^^^ 0x5c)) ∧ st.key = key
@@ -656,7 +665,7 @@ def hmacLaws {σ : Type} {H : HashObj σ} {hash : Bytes → Bytes} {mc : Nat} (L
       rw [memcpy_zero_front _ _ (by rw [hdl]; exact Nat.le_refl _), hdl]
       simp [List.take_of_length_le (Nat.le_of_eq hdl)]
     have a2 := L.append st.mdOpad _ (hash ((hmacK hash H.blockSize key).map (· ^^^ 0x36) ++ m)) b
-      (by rw [hdl]; exact Nat.lt_of_le_of_lt L.digest_le_block L.block_lt)
+      (by rw [hdl]; exact L.ok_mono _ _ L.digest_le_block L.block_ok)
     obtain ⟨q1, q2⟩ := L.readout _ _ a2
     obtain ⟨i1, i2, i3⟩ := hmacInit_spec L
       ⟨(H.readout st.md).2, (H.readout (H.append st.mdOpad (hash ((hmacK hash H.blockSize key).map (· ^^^ 0x36) ++ m)))).2, st.key⟩
@@ -676,7 +685,8 @@ def hmacLaws {σ : Type} {H : HashObj σ} {hash : Bytes → Bytes} {mc : Nat} (L
     rw [hmac_eq_hmacK]
     exact L.digest_len _
   digest_le_block := L.digest_le_block
-  block_lt := L.block_lt
+  block_ok := L.block_ok
+  ok_mono := L.ok_mono
 
 /-! ## CBC over an abstract block type
 
